@@ -147,6 +147,8 @@ def plan(tier, seed):
         extreme = [["img0", "line", f["key"], {"hex": "ff" * f["w"]}, ln] for f in flds for ln in (0, 4100)] + [["img0", "line", f["key"], {"hex": "80" + "00" * (f["w"] - 1)}, 4199] for f in flds]
         for pre, what in (([], "uncached"), ([{"create_cache": True}], "cached open")):
             cases.append({"spec": {"level": level, "images": [["HH", None, 24, 1]], "line_mode": "steps"}, "devs": [], "pre": pre, "kw": {}, "label": f"{level} 24 lines piecewise constant, {what}"})
+            for mode in ("drift", "bumpy", "bumpy-const"):  # exact ramps, and ramps / constants that two lines miss by one unit
+                cases.append({"spec": {"level": level, "images": [["HH", None, 24, 1]], "line_mode": mode}, "devs": [], "pre": pre, "kw": {}, "label": f"{level} 24 lines per-line values {mode}, {what}"})
             cases.append({"spec": {"level": level, "images": [["HH", None, 4200, 1]], "line_mode": "steps"}, "devs": extreme, "pre": pre, "kw": {}, "label": f"{level} 4200 lines with extreme values on lines 0, 4100, 4199, {what}"})
     return cases
 
